@@ -769,6 +769,39 @@ def str_methods_total(ctx, idx, rule, only=None, floor=True):
         def payload_attrs(e_):
             return [a_ for a_ in payload_attrs0(e_) if not constant_text(a_)]
 
+        def literal_at_every_site(attr_):
+            """the attribute is set from one __init__ parameter, and every construction of the class (or a subclass without an
+            __init__ of its own) passes a string literal, or nothing, for it: the template never holds interpolated text"""
+            init_ = ci.methods.get("__init__")
+            if init_ is None:
+                return False
+            params_ = [a_.arg for a_ in init_.node.args.args][1:]
+            srcs_ = set()
+            for x_ in own_nodes(init_.node):
+                if isinstance(x_, ast.Assign) and any(isinstance(t_, ast.Attribute) and t_.attr == attr_ for t_ in x_.targets):
+                    srcs_ |= {w_.id for w_ in ast.walk(x_.value) if isinstance(w_, ast.Name) and w_.id in params_}
+                    if any(isinstance(w_, (ast.Call, ast.BinOp, ast.JoinedStr)) for w_ in ast.walk(x_.value)):
+                        return False
+            if len(srcs_) != 1:
+                return False
+            pn_ = next(iter(srcs_))
+            pos_ = params_.index(pn_)
+            fam_ = {ci} | {c_ for c_ in idx.subclasses(ci) if hasattr(c_, "methods")}
+            seen_ = 0
+            for mod_, f_, n_ in K.scoped_nodes(idx):
+                if isinstance(n_, ast.Call) and isinstance(n_.func, (ast.Name, ast.Attribute)):
+                    r_ = idx.resolve(mod_, n_.func, f_)
+                    if r_ and r_[0] == "class" and r_[1] in fam_:
+                        if r_[1] is not ci and "__init__" in r_[1].methods:
+                            return False
+                        if any(isinstance(a_, ast.Starred) for a_ in n_.args) or any(k_.arg is None for k_ in n_.keywords):
+                            return False
+                        seen_ += 1
+                        v_ = n_.args[pos_] if pos_ < len(n_.args) else next((k_.value for k_ in n_.keywords if k_.arg == pn_), None)
+                        if v_ is not None and not (isinstance(v_, ast.Constant) and (isinstance(v_.value, str) or v_.value is None)):
+                            return False
+            return seen_ > 0
+
         def payload_attrs0(e_):
             if isinstance(e_, ast.Name) and e_.id in carried:
                 return sorted(carried[e_.id])
@@ -798,6 +831,18 @@ def str_methods_total(ctx, idx, rule, only=None, floor=True):
                     lacking = [f for f in named if f not in given]
                     if lacking:
                         probs.append((c.lineno, "the format string names `{%s}` but .format() is given %s: KeyError while the message is printed" % (lacking[0], ("only " + ", ".join(sorted(given))) if given else "no keyword")))
+            if isinstance(c, ast.Call) and isinstance(c.func, ast.Attribute) and c.func.attr in ("format", "format_map") and not isinstance(c.func.value, ast.Constant):
+                # the TEMPLATE is a payload: text the raise site built, usually by interpolating names and values of the model into
+                # it.  A brace in such a name (`elev{m}`, `{}`, `{0`) is then read as a replacement field: KeyError / IndexError /
+                # ValueError out of str(error) - inside the CLI's handler, past every `except MPilotError`
+                tmpl_ = payload_attrs0(c.func.value)
+                tmpl_ = [a_ for a_ in tmpl_ if not constant_text(a_) and not literal_at_every_site(a_)]
+                if tmpl_:
+                    probs.append((c.lineno, "`%s` uses the payload `%s` as the format TEMPLATE: that text is built at the raise sites, with names and values of the model interpolated into it, and a brace in one of those (`elev{m}`) is read as a replacement field - KeyError / IndexError / ValueError while the message is printed" % (K.src(c)[:60], tmpl_[0])))
+            if isinstance(c, ast.BinOp) and isinstance(c.op, ast.Mod) and not isinstance(c.left, ast.Constant):
+                tmpl_ = [a_ for a_ in payload_attrs0(c.left) if not constant_text(a_) and not literal_at_every_site(a_)]
+                if tmpl_:
+                    probs.append((c.lineno, "`%s` uses the payload `%s` as a %%-template: a `%%` in the interpolated model text raises TypeError / ValueError while the message is printed" % (K.src(c)[:60], tmpl_[0])))
             if isinstance(c, ast.Call) and isinstance(c.func, ast.Attribute) and c.func.attr == "join" and isinstance(c.func.value, ast.Constant) and c.args:
                 arg = K.expand(m, c.args[0])
                 elems = arg.elts if isinstance(arg, (ast.Tuple, ast.List)) else None
